@@ -18,7 +18,7 @@ LEVEL = "fault_enumeration"
 NEEDS = ["harness", "cli"]
 RULE = ("(A) random call sets with missing/multiallelic genotypes x maps, with and without projection: mass(stdout) + X == R and Y == R for the "
         "summary 'Skipped X/Y', the multiset of 'Skipping site c:p' lines (-v) == the reference's skipped records (each exactly once), no summary "
-        "when nothing is skipped; --strict fails at the FIRST would-be-skipped record naming it and otherwise prints identical output; L1: every "
+        "when nothing is skipped; --strict (combined with -q / -qq / -v / -vv / none) fails at the FIRST would-be-skipped record naming it and otherwise prints identical output; L1: every "
         "counted record's contribution sums to 1 (1e-9), incl. cohorts of 86-220 samples and of 500-1200 samples projected to about half (the band where the binomial coefficients leave the f64 range one after the other). (B) for streams of R records (R<=12 quick, <=40 thorough) a failing record at EVERY position "
         "0..R-1 x kind {ploidy error in a selected sample (4 containers), malformed VCF line (vcf, vcf.gz), BCF stream truncated inside record i "
         "(raw bcf, bgzf bcf), BGZF block i with a corrupted CRC (vcf.gz, bcf)}: exit != 0, empty stdout, diagnostic on stderr (naming contig:pos for "
@@ -85,8 +85,11 @@ def check_A(S, p):
             S.sample({"level": "C", "argv": r.argv, "stdout": r.out.decode()[:200], "stderr": r.err.decode()[:600], "reference_skipped": want[:10], "records": R})
         # strict mode (conflicts with projection)
         if project is None:
-            st = E.cli_create(data, smap, extra=["--strict"])
+            # verbosity only decides what is logged, never whether --strict fails
+            vflags = rng.choice([[], [], ["-q"], ["-qq"], ["--quiet"], ["-v"], ["-vv"], ["-q", "-q", "-q"]])
+            st = E.cli_create(data, smap, extra=["--strict"] + vflags)
             S.count("strict_runs")
+            S.observe("strict_with_verbosity", " ".join(vflags) or "(default)")
             if exp.skipped:
                 first = "%s:%d" % exp.skipped[0]
                 if st.rc == 0 or st.out or ("'%s'" % first).encode() not in st.err:
